@@ -33,7 +33,7 @@ COMPONENTS = {
 }
 ASSUMPTIONS = ["IMR as a Rust pseudo-register and unknown register names are not part of the property"]
 PROBES = ["il_write_clears_ih", "alias_read_after_write", "truncation", "restart_py", "restart_rs_pack", "flag_via_f", "f_via_flag",
-          "temp_write", "snapshot_discarded", "api_cpu_runtime", "api_cpu_state", "api_regs_runtime", "api_regs_state", "api_machine_bundle"]
+          "temp_write", "snapshot_discarded", "api_cpu_runtime", "api_cpu_state", "api_regs_runtime", "api_regs_state", "api_machine_bundle", "bystander_write"]
 
 NAMES = ["A", "B", "BA", "IL", "IH", "I", "X", "Y", "U", "S", "PC", "F", "FC", "FZ"]
 TEMPS = [f"TEMP{i}" for i in range(14)]
@@ -51,7 +51,7 @@ def generate(batch: str, r: Rng, idx: int, tier: str) -> Dict[str, Any]:
     n = r.choice([20, 50, 100, 200]) if batch != "bundle" else r.choice([12, 30])
     ops: List[list] = []
     while len(ops) < n:
-        k = r.weighted([("set", 10), ("get", 8), ("restart", 1), ("sweep", 1), ("peek", 1)])
+        k = r.weighted([("set", 10), ("get", 8), ("restart", 1), ("sweep", 1), ("peek", 1), ("noise", 2)])
         if k == "set":
             name = r.choice(NAMES + NAMES + TEMPS[:4]) if r.chance(4, 5) else r.choice(TEMPS)
             v = r.choice(VALUES) if r.chance(1, 2) else r.below(1 << 32)
@@ -63,6 +63,10 @@ def generate(batch: str, r: Rng, idx: int, tier: str) -> Dict[str, Any]:
                 ops.append(["get", other])
         elif k == "get":
             ops.append(["get", r.choice(NAMES + TEMPS[:3]) if r.chance(3, 4) else r.choice(TEMPS)])
+        elif k == "noise":
+            # a write to *another* register file that is alive in the same process (a second CPU, the file a snapshot was
+            # taken from before the restart): it must not show in the file under test
+            ops.append(["noise", r.choice(NAMES + TEMPS + TEMPS), r.choice(VALUES) if r.chance(1, 2) else r.below(1 << 32)])
         elif k == "peek":
             ops.append(["peek"])       # a snapshot taken and thrown away; the register file lives on and is written again
         elif k == "restart":
@@ -102,12 +106,18 @@ def _run_py_machine(scn: Dict[str, Any]) -> List[Any]:
         regs.set(RegisterName[f"TEMP{i}"], 0)
     out: List[Any] = []
     path = os.path.join(machine.scratch_dir(), f"regs-{os.getpid()}.pcsnap")
+    from sc62015.pysc62015.emulator import Registers
+    by = Registers()
     for op in scn["ops"]:
-        if op[0] == "peek":
+        if op[0] == "noise":
+            by.set(RegisterName[op[1]], op[2])
+            out.append(None)
+        elif op[0] == "peek":
             emu.cpu.snapshot_registers()
             out.append(None)
         elif op[0] == "restart":
             emu.save_snapshot(path)
+            by = emu.cpu.regs          # the machine that was saved stays around as the bystander
             emu = new_emu()
             try:
                 machine.quiet_load(emu, path)
@@ -144,8 +154,12 @@ def _run_py(scn: Dict[str, Any]) -> List[Any]:
         for nm in ("BA", "I", "X", "Y", "U", "S", "PC", "F"):
             regs.set(RegisterName[nm], 0)
     out: List[Any] = []
+    by = new_cpu().regs if facade else Registers()
     for op in scn["ops"]:
-        if op[0] == "peek":
+        if op[0] == "noise":
+            by.set(RegisterName[op[1]], op[2])
+            out.append(None)
+        elif op[0] == "peek":
             if facade:
                 cpu.snapshot_registers()
             else:
@@ -153,6 +167,7 @@ def _run_py(scn: Dict[str, Any]) -> List[Any]:
             out.append(None)
         elif op[0] == "restart" and facade:
             snap = cpu.snapshot_registers()
+            by = regs                  # the file the snapshot came from lives on as the bystander
             cpu = new_cpu()
             cpu.apply_snapshot(snap)
             regs = cpu.regs
@@ -172,6 +187,7 @@ def _run_py(scn: Dict[str, Any]) -> List[Any]:
             snap = CPURegistersSnapshot.from_registers(regs)
             fresh = Registers()
             snap.apply_to(fresh)
+            by = regs                  # the file the snapshot came from lives on as the bystander
             regs = fresh
             out.append(None)
     return out
@@ -182,6 +198,8 @@ def execute(scn: Dict[str, Any]) -> Dict[str, Any]:
     for op in scn["ops"]:
         if op[0] == "restart":
             rs_ops.append(["roundtrip"] if op[1] == "pack" else ["apply"])
+        elif op[0] == "noise":
+            rs_ops.append(["peek"])     # the bystander is a Python-side object; the Rust script keeps its op index
         else:
             rs_ops.append(op)
     extra = []
@@ -266,6 +284,9 @@ def check(scn: Dict[str, Any], hist: Dict[str, Any]) -> List[Dict[str, Any]]:
                 probe("f_via_flag")
             if op[2] > 0xFFFFFF:
                 probe("truncation")
+            continue
+        if op[0] == "noise":
+            probe("bystander_write")
             continue
         if op[0] == "peek":
             probe("snapshot_discarded")
